@@ -180,6 +180,21 @@ func (i *ignore) TeardownBlockStatement(meta *ast.Meta) {
 	}
 }
 
+// An ignore range belongs to the file in which it is opened. The range is saved before the statements
+// of an included module are linted and restored after that, so that a range which is not closed
+// in the module (e.g. falco-ignore-end is the last comment of the module) does not cover the including file.
+func (i *ignore) saveRange() ignoredRules {
+	saved := ignoredRules{all: i.ignoreRange.all, rules: make(map[Rule]bool, len(i.ignoreRange.rules))}
+	for r := range i.ignoreRange.rules {
+		saved.rules[r] = true
+	}
+	return saved
+}
+
+func (i *ignore) restoreRange(saved ignoredRules) {
+	i.ignoreRange = saved
+}
+
 func (i *ignore) IsEnable(rule Rule) bool {
 	for idx := range i.ignoreNextLine {
 		if i.ignoreNextLine[idx].isIgnored(rule) {
